@@ -65,6 +65,25 @@ CHECKS = {
         note="Trusted: harness/refisa.hpp callbacks and the region rule (code = from the entry branch target to the end of the image). "
              "Dynamic: only executed code is observed.",
         ref="4/C08"),
+    "C07": dict(
+        technique="runtime monitoring: differential execution of constant-leaf, run-time-leaf and mixed variants of the same expression on hexsim",
+        engine="xref",
+        text="Exploration with a complete grid: every binary operator over a 61-value operand set on each side (all boundary values for "
+             "immediate/pool loads and the 32-bit limits, including pairs whose sum or difference wraps), unary operators, boolean operators "
+             "over 0/1, and random trees up to depth 5 with K/R/M leaf assignments, each placed in eight contexts (exit argument, assignment, "
+             "actual, return, condition, system-call argument, subscript, nested operand). Variants must exit with the same value and output.",
+        note="Oracle = equality of variants (that is the property); the 32-bit wrap value is logged only for diagnosis. Values between the grid points are sampled.",
+        ref="4/C07"),
+    "C15": dict(
+        technique="runtime monitoring: online matching of hexsim -t trace text against the reference ISA step trace, symbol table and reference call log",
+        engine="xref",
+        text="Exploration: well-defined generated programs (1-8 procedures in random order, recursion, calls in every operand position) are "
+             "run with tracing into a string stream; every record's count/address/symbol+offset/mnemonic/operand is matched against the "
+             "reference model's k-th step and the code ranges read from the binary's own table; the table must list each procedure once in "
+             "address order; procedure entries detected on the reference model (LDAP+BR) must land on the table offsets of the reference "
+             "interpreter's call log (as a sequence when the source forces the order, as a multiset otherwise).",
+        note="Trusted: refisa step trace, lib/xref.py call log, lib/asmsrc.parse_debug. Also checks that tracing changes neither exit value, input position nor system calls.",
+        ref="4/C15"),
 }
 
 PENDING_REASON = "no check registered yet in this revision of /verif (machinery for it is still being built; see DESIGN.md section 4)"
@@ -97,7 +116,7 @@ def main():
              "kind_free_text": "executable reference model of the Hex ISA with pre-step classifier and access monitors"},
             {"name": "asm-decode", "path": "harness/h_asm.cpp", "serves_properties": ["C04", "C05", "C17"],
              "kind_free_text": "in-process assembler driver (HEX_VERIF layout hook) with image decode-walk"},
-            {"name": "xref", "path": "lib/xref.py", "serves_properties": ["C01", "C08"],
+            {"name": "xref", "path": "lib/xref.py", "serves_properties": ["C01", "C07", "C08", "C15"],
              "kind_free_text": "reference parser and definitional interpreter for X with event log and well-definedness monitor; lib/xgen.py generators; harness/h_x.cpp compile+lock-step runner"},
             {"name": "buildcache", "path": "lib/common.py", "serves_properties": sorted(CHECKS),
              "kind_free_text": "content-hash build cache, fork-per-case runner, verdict/evidence/known-finding plumbing"},
